@@ -50,7 +50,7 @@ theorem indent_decl_roundtrip (p : XmlParams) {t : Tree} (hr : Representable env
         (fun e he => isEncName_encChar (henc d e hd he))
       obtain ⟨p0, hb0, ht, he⟩ := hf.hbuild (strLen (d.bytes ++ renderLines (spellTopP env p.tokenParams sup ks)))
       obtain ⟨q, hq, h1, h2, _⟩ := build_erase_ok .document _
-        (strLen (d.bytes ++ renderLines (spellTopP env p.tokenParams sup ks))) env _ ts' her.symm p0 hb0
+        (strLen (d.bytes ++ renderLines (spellTopP env p.tokenParams sup ks))) env _ ts' her.1.symm her.2 p0 hb0
       refine ⟨q, ?_, by rw [h1, ht], by rw [h2, he]⟩
       simp only [parseString, lexMode, hl, build_declaration_opt]
       exact hq
